@@ -167,4 +167,17 @@ theorem complete_exit_is_den {inp : RunInput} {s : Sys} (hr : Reach inp s ∨ PR
     rw [this, hd] at hde
     exact ⟨e, he, by rw [den?_fail hde]; rfl⟩
 
+/-! ### non-vacuity -/
+
+/-- an input with dynamic edges: `1` (selected) has calc_dep `0`; `0` succeeds and delivers task_dep `2` and calc_dep
+    `4`; `4` succeeds and delivers a file_dep owned by `5`; `2` fails; `3` (selected) has task_dep `2`; `--continue` -/
+def exC08calc : RunInput :=
+  { taskDep := fun n => if n = 3 then [2] else []
+    calcDep := fun n => if n = 1 then [0] else []
+    setup := fun _ => []
+    sel := [1, 3], continue_ := true
+    outcome := fun n => if n = 2 then .failed else .ok
+    calcRes := fun n => if n = 0 then { tasks := [2], calcs := [4] } else if n = 4 then { files := [5] } else {}
+    runner := .thread, numProc := 2 }
+
 end DoitModel.Run.Dyn
